@@ -302,6 +302,18 @@ def gen_mul(rng, cv, sysname, count, part=None):
             for kk in (-2, -(3 + rng.below(17)), -((1 << 63) + rng.below(1 << 20))):
                 for al in (0, 1):
                     out.append("edm %s %d %s %s" % (v, al, ptok(rng, cv, rng.choice(pool + [cv.g]), "" if v.startswith("fix") else rp), hx(kk)))
+    # simultaneous normalisation: lists with the neutral element in affine and in projective form (0 : Z : Z), points of small order,
+    # separate and in-place results
+    if mine(3):
+        neutral = ["0,1", "0,1,2,P", "0,1,%x,P" % (rng.bits(255) % cv.p or 1), "0,1,%x,P" % (cv.p - 1)]
+        for al in (0, 1):
+            out.append("ed_nsim %d %s" % (al, ptok(rng, cv, rng.choice(pool), rp)))
+            out.append("ed_nsim %d %s" % (al, neutral[1]))
+            out.append("ed_nsim %d %s %s %s" % (al, ptok(rng, cv, rng.choice(pool), rp), neutral[2], ptok(rng, cv, rng.choice(pool), rp)))
+            out.append("ed_nsim %d %s %s" % (al, neutral[0], neutral[3]))
+            out.append("ed_nsim %d %s" % (al, " ".join(ptok(rng, cv, rng.choice(pool + [cv.g]), rp) for _ in range(rng.choice([2, 3, 8])))))
+            T = rng.choice(cv.torsion(rng))
+            out.append("ed_nsim %d %s %s" % (al, ptok(rng, cv, T, rp), ptok(rng, cv, rng.choice(pool), rp)))
     for v in SIM:
         for cls in range(NCLASS):
             if not mine(cls + len(v)):
